@@ -343,7 +343,16 @@ func visitInstr(fr *frame, instr ssa.Instruction) continuation {
 			}
 		}
 		if sc, ok := capv.(symInt); ok {
-			capv = fr.concretizeAny(sc, "make-cap")
+			// A symbolic capacity with a concrete length: the capacity only decides when append re-allocates,
+			// which no value the program computes depends on (cap() of such a slice excepted, not supported).
+			// Branch on the run-time check (0 <= len <= cap <= limit) and continue with cap = len.
+			tb := fr.i.tb
+			l := asInt64(lenv)
+			okc := tb.And(tb.Cmp(OpBvSle, tb.Const(uint64(l), sc.t.W), sc.t), tb.Cmp(OpBvSle, sc.t, tb.Const(1<<28, sc.t.W)))
+			if !fr.branch(okc, "make-cap-in-range") {
+				panic(targetPanic{"runtime error: makeslice: cap out of range"})
+			}
+			capv = lenv
 		}
 		c, l := asInt64(capv), asInt64(lenv)
 		if l < 0 || c < l || c > 1<<28 {
